@@ -380,6 +380,11 @@ fn seed_bytes(seed: u64, id: &str, worker: usize) -> Vec<u8> {
 }
 
 pub fn scratch_root() -> PathBuf {
+    // JBKV_SCRATCH: a scratch copy of the harness (mutation sweep) keeps its files apart
+    if let Ok(d) = std::env::var("JBKV_SCRATCH") {
+        let _ = std::fs::create_dir_all(&d);
+        return PathBuf::from(d);
+    }
     let shm = Path::new("/dev/shm");
     if shm.is_dir() {
         shm.to_path_buf()
